@@ -144,6 +144,11 @@ def run(ctx: C.Ctx):
     from dataclass_wizard import asdict
     if ctx.only is not None and not (BASE <= ctx.only < BASE + 100000):
         return
+    t = ('interpreter DW/Model/GenDumpSem.lean: Boolean abstraction of the _skip_<i> locals, short-circuit or / and, comparisons = evalCond / '
+         'pyEqDflt of the dump model; the closure holds the values dump_func_for_dataclass assigns into _locals (keys compared on every '
+         'run, values read off the source); tied to the code by rebuilding the returned dict from the emissions')
+    if t not in ctx.trusted:
+        ctx.trusted.append(t)
     rng = random.Random(f'C11gc:{ctx.seed}')
     n_cases = ctx.quick(260, 4000)
     cap = gencap.Capture()
